@@ -298,7 +298,11 @@ var c07Degenerate = probe.Define("C07", "degenerate-peer-value", func(t *rapid.T
 		return probe.Fail("ToProposal: %v", err)
 	}
 	var sa *security.IKESAKey
-	if err := probe.Try(func() error { var e error; sa, _, e = security.NewIKESAKey(prop, ref.LeftPad(peer, n), append([]byte(nil), in.Nonce...), 7, 9); return e }); err != nil {
+	if err := probe.Try(func() error {
+		var e error
+		sa, _, e = security.NewIKESAKey(prop, ref.LeftPad(peer, n), append([]byte(nil), in.Nonce...), 7, 9)
+		return e
+	}); err != nil {
 		return probe.Fail("NewIKESAKey: %v", err)
 	}
 	var errs []string
